@@ -14,7 +14,7 @@ fn post(a: usize, amt: Option<VE>, bal: Option<VE>) -> Posting {
     Posting { account: a, amount: amt, cost: None, lot: None, balance: bal }
 }
 fn txn(d: i32, posts: Vec<Posting>) -> Entry {
-    Entry::Txn(Txn { date: d, posts })
+    Entry::Txn(Txn { effective: None, date: d, posts })
 }
 
 fn fixed_cases() -> Vec<Vec<Entry>> {
